@@ -125,6 +125,10 @@ def params_list(tier):
             for macro in ("none", "idle4", "burst"):
                 for order, latency in configs:
                     out.append((direction, msgs, macro, order, latency, 0))
+            # round trip longer than the resend interval: retry modes put the message into several datagrams
+            if any(r != "none" for _, r in msgs):
+                for lat in ((8,) if tier == "quick" else (8, 20)):
+                    out.append((direction, msgs, "none", "cs", lat, 0))
             # ack blackout long enough for a guaranteed retransmission, with the burst in between
             if any(r != "none" for _, r in msgs):
                 out.append((direction, msgs, "burst", "cs", 1, 100))
